@@ -140,6 +140,12 @@ impl WriteAheadLog {
             (id, config.wal_dir.join(segment_file_name(id)))
         };
 
+        // A crash may have cut the last write: drop the torn tail so that entries
+        // appended from now on are not hidden behind it when the log is read back.
+        if segments.last().is_some() {
+            repair_torn_tail(&segment_path)?;
+        }
+
         let file = open_segment(&segment_path).await?;
         let current_size = file.metadata().await.map_err(map_io_error)?.len();
         let next_seq = match last_sequence_in_segments(&segments)? {
@@ -265,6 +271,29 @@ impl WriteAheadLog {
         self.last_sync = Instant::now();
         Ok(())
     }
+}
+
+/// Truncate a segment to its longest prefix of complete, CRC-valid entries.
+fn repair_torn_tail(path: &Path) -> Result<()> {
+    let valid_len: u64 = read_entries_from_path(path)?
+        .iter()
+        .map(|entry| (HEADER_LEN + entry.payload.len()) as u64)
+        .sum();
+    let file = std::fs::OpenOptions::new()
+        .write(true)
+        .open(path)
+        .map_err(map_io_error)?;
+    let len = file.metadata().map_err(map_io_error)?.len();
+    if len > valid_len {
+        warn!(
+            "Dropping {} bytes of torn WAL tail from {:?}",
+            len - valid_len,
+            path
+        );
+        file.set_len(valid_len).map_err(map_io_error)?;
+        file.sync_all().map_err(map_io_error)?;
+    }
+    Ok(())
 }
 
 fn last_sequence_in_segments(segments: &[SegmentInfo]) -> Result<Option<u64>> {
